@@ -374,7 +374,7 @@ func (w *World) driverSource(pkg *ssa.Package) string {
 			name := strings.TrimSpace(c.Text[:eq])
 			for i, p := range fn.Params {
 				if p.Name() == name {
-					body = append(body, fmt.Sprintf("%s = %s; a[%d] = reflect.ValueOf(%s)", name, strings.TrimSpace(c.Text[eq+1:]), i, name))
+					body = append(body, fmt.Sprintf("%s = %s; verifA[%d] = reflect.ValueOf(%s)", name, strings.TrimSpace(c.Text[eq+1:]), i, name))
 				}
 			}
 		}
@@ -384,9 +384,9 @@ func (w *World) driverSource(pkg *ssa.Package) string {
 				if p.Name() == "" || p.Name() == "_" {
 					continue
 				}
-				decl = append(decl, fmt.Sprintf("%s := a[%d].Interface().(%s); _ = %s", p.Name(), i, goTypeString(p.Type(), pkg.Pkg), p.Name()))
+				decl = append(decl, fmt.Sprintf("%s := verifA[%d].Interface().(%s); _ = %s", p.Name(), i, goTypeString(p.Type(), pkg.Pkg), p.Name()))
 			}
-			gen = ", Gen: func(a []reflect.Value, r *rand.Rand) { " + strings.Join(decl, "; ") + "; " + strings.Join(body, "; ") + " }"
+			gen = ", Gen: func(verifA []reflect.Value, r *rand.Rand) { " + strings.Join(decl, "; ") + "; " + strings.Join(body, "; ") + " }"
 		}
 		rows = append(rows, fmt.Sprintf("\t%q: {F: %s%s},", fs.Name, expr, gen))
 	}
@@ -593,6 +593,8 @@ func (w *World) checkRecord(fi *FuncInfo, fs *FuncSpec, rec map[string]interface
 	old.alloc = BVInt(cb.nextReg+1, 32)
 	x := &Exec{W: w, top: fi, entry: old, alloc0: old.alloc, counters: map[string]int{}, hints: &Hints{Reveal: map[string]bool{}}}
 	w.initPhase = true // concrete tables are not needed; invariants are not assumed
+	w.concreteMode = true
+	defer func() { w.concreteMode = false }()
 	ge := &groundEval{w: w, dom: 330, budget: 400000, memo: map[*Term]*Term{}}
 	pre := x.funcEnv(fi, "pre", old, nil, args, nil)
 	for _, c := range fs.Clauses {
